@@ -550,6 +550,27 @@ fn main() {
     let args: Vec<String> = std::env::args().collect();
     let code = match args.get(1).map(|s| s.as_str()) {
         Some("check") => check(args.get(2).map(|s| s.as_str()).unwrap_or("C04"), args.get(3).map(|s| s.as_str()).unwrap_or("quick")),
+        Some("selftest") => {
+            // determinism: one line per seeded execution (lock count, interleaving fingerprint)
+            let n: u64 = args.get(2).and_then(|s| s.parse().ok()).unwrap_or(200);
+            let root = std::env::var("VERIF_ROOT").unwrap_or_else(|_| "/verif".into());
+            let dir = format!("{root}/l2/target/schedules/selftest");
+            let _ = std::fs::create_dir_all(&dir);
+            for i in 0..n {
+                let seed = mix(0x9e3779b97f4a7c15 ^ i);
+                let d = dir.clone();
+                let h = std::thread::Builder::new().stack_size(64 << 20).spawn(move || {
+                    install_hook();
+                    one_execution(seed, i % 4 == 3, &d, None)
+                });
+                match h.expect("spawn").join() {
+                    Ok(Ok((locks, trace, _))) => println!("{seed} {locks} {trace:016x}"),
+                    Ok(Err((class, _, _, _))) => println!("{seed} violation {class}"),
+                    Err(_) => println!("{seed} died"),
+                }
+            }
+            0
+        }
         Some("replay") => replay(args.get(2).map(|s| s.as_str()).unwrap_or("")),
         _ => {
             eprintln!("usage: glaresim-l2 check <property> <tier> | replay <file>");
